@@ -76,7 +76,7 @@ macro_rules! slice_spec {
                 }
             }
             fn gen(t: &mut Tape, p: &Gp) -> Vec<S::V> {
-                gen_vec(t, p, !S::CODED, S::gen)
+                gen_vec(t, p, !S::CODED && !S::SLICY, S::gen)
             }
             fn shrink(v: &Vec<S::V>) -> Vec<Vec<S::V>> {
                 let mut out = shrink_vec(v);
